@@ -13,7 +13,7 @@ Sig == [ call0 |-> <<"int">>, call1 |-> <<"int", "int">>, call2 |-> <<"int", "in
          mcall |-> <<"int", "obj", "int", "int">>, op |-> <<"int", "int", "int">>, cmp |-> <<"bool", "int", "int">>,
          obj0 |-> <<"obj", "par">>, obj1 |-> <<"obj", "par", "int">>, obj2 |-> <<"obj", "par", "int", "int">>, obj3 |-> <<"obj", "par", "int", "int", "int">>,
          arrs |-> <<"arr", "size">>, arrc0 |-> <<"arr", "size0", "int">>, arrc1 |-> <<"arr", "size1", "int">>, arrc2 |-> <<"arr", "size2", "int">>, arrc3 |-> <<"arr", "size3", "int">>,
-         index |-> <<"int", "arr", "idx">>, setindex |-> <<"int", "arr", "idx", "int">>, getfield |-> <<"int", "obj">>, setfield |-> <<"int", "obj", "int">>,
+         index |-> <<"int", "arr", "idx">>, setindex |-> <<"int", "arr", "idx", "int">>, oindex |-> <<"int", "obj", "idx">>, osetindex |-> <<"int", "obj", "idx", "int">>, getfield |-> <<"int", "obj">>, setfield |-> <<"int", "obj", "int">>,
          if |-> <<"int", "bool", "int", "int">>,
          print0 |-> <<"null">>, print1 |-> <<"null", "int">>, print2 |-> <<"null", "int", "int">>, print3 |-> <<"null", "int", "int", "int">>,
          while0 |-> <<"null">>, while1 |-> <<"null">>, while2 |-> <<"null">>, let |-> <<"int", "int">>, assign |-> <<"int", "int">> ]
